@@ -144,11 +144,11 @@ class Gen:
             elif c < 0.78:
                 ops.append(dict(self.opts(), op="AddSymlink", name=self.name(), target=r.choice(["a.txt", "../x", "t/é", ""])))
             elif c < 0.9 and extra:
-                o = self.opts(methods=methods)
+                o = self.opts(methods=methods, enc_ok=enc_ok)
                 ops.append(dict(o, op="StartFileAligned", name=self.name(), align=r.choice([0, 1, 2, 4, 16, 64, 512, 4096, 3, 7, 1000])))
                 ops.append({"op": "Write", "data": self.payload()})
             elif extra:
-                o = self.opts(methods=methods)
+                o = self.opts(methods=methods, enc_ok=enc_ok)
                 ops.append(dict(o, op="StartFileExtra", name=self.name()))
                 ops.append({"op": "WriteExtra", "recs": self.extra_recs(), "vec": r.random() < 0.3})
                 if r.random() < 0.5:
@@ -179,7 +179,7 @@ class Gen:
             elif c < 0.36:
                 ops.append({"op": "Write", "data": self.payload()})
             elif c < 0.44 and room:
-                ops.append(dict(self.opts(misuse=True), op="StartFileExtra", name=self.name(True, True)))
+                ops.append(dict(self.opts(misuse=True, enc_ok=True), op="StartFileExtra", name=self.name(True, True)))
                 entries += 1
             elif c < 0.54:
                 ops.append({"op": "WriteExtra", "recs": self.extra_recs(bad=True)})
@@ -188,14 +188,14 @@ class Gen:
             elif c < 0.67:
                 ops.append({"op": "EndLocalStartCentral"})
             elif c < 0.73 and room:
-                ops.append(dict(self.opts(misuse=True), op="StartFileAligned", name=self.name(),
+                ops.append(dict(self.opts(misuse=True, enc_ok=True), op="StartFileAligned", name=self.name(),
                                 align=r.choice([0, 1, 2, 8, 64, 4096, 65535, 65533, 32768, r.randint(0, 65535)])))
                 entries += 1
             elif c < 0.79 and room:
-                ops.append(dict(self.opts(misuse=True), op="AddDir", name=self.name(True, True)))
+                ops.append(dict(self.opts(misuse=True, enc_ok=True), op="AddDir", name=self.name(True, True)))
                 entries += 1
             elif c < 0.84 and room:
-                ops.append(dict(self.opts(misuse=True), op="AddSymlink", name=self.name(), target="tgt/é"))
+                ops.append(dict(self.opts(misuse=True, enc_ok=True), op="AddSymlink", name=self.name(), target="tgt/é"))
                 entries += 1
             elif c < 0.89 and room and src_prelude:
                 ops.append({"op": "RawCopy", "arch": 0, "idx": r.randint(0, 3),
@@ -386,7 +386,7 @@ def interaction_program(r, sc, row, k=0):
     when = {"zero": (0, 0), "ones": (65535, 65535), "rand": (r.randint(0, 65535), r.randint(0, 65535))}[row["when"]]
     o = {"method": m, "level": lv, "large": row["large"], "perm": row["perm"], "date": when[0], "time": when[1]}
     kind = row["kind"]
-    if row["enc"] and kind in ("file", "dir", "symlink", "file-dirname"):
+    if row["enc"] and kind in ("file", "dir", "symlink", "file-dirname", "aligned", "aligned-odd", "extra-local", "extra-central", "extra-both", "extra-open"):
         o["enc"] = row["enc"]             # (the encryption option on every call that takes options)
     nm = _iname(r, row["name"], k)
     pay = _ipayload(r, row["payload"])
